@@ -1530,7 +1530,7 @@ def is_imf(imf, avg_tol=5e-2, envelope_opts=None, extrema_opts=None):
         checks[ii, 1] = diff < avg_tol
 
         msg = 'IMF-{0} {1} - {2} extrema and {3} zero-crossings. Avg of envelopes is {4:.4}/{5:.4} ({6:.4}%)'
-        msg = msg.format(ii, np.alltrue(checks[ii, :]), num_ext, num_zc, avg_sum, imf_sum, 100*diff)
+        msg = msg.format(ii, np.all(checks[ii, :]), num_ext, num_zc, avg_sum, imf_sum, 100*diff)
         logger.debug(msg)
 
     return checks
